@@ -766,6 +766,19 @@ func checkT5(c *Ctx, jr *joinRoles) {
 			}
 		}
 	}
+	// (a') the ticker period is never changed afterwards
+	for _, fn := range jr.rt.Funcs {
+		for _, b := range fn.Blocks {
+			for _, in := range b.Instrs {
+				if call, ok := in.(*ssa.Call); ok {
+					if cal := p.Callee(call); cal != nil && p.funcDisplay(cal) == "(*time.Ticker).Reset" {
+						_, path, okp := p.Sym(call.Call.Args[1]).FieldPath()
+						c.R.Check(okp && path[len(path)-1] == "interruptInterval", "T5", joinKey(jr, fn, "ticker-reset"), p.InstrPos(call), "ticker re-armed with interruptInterval", "the ticker is re-armed with "+p.Sym(call.Call.Args[1]).String()+" instead of interruptInterval: afterwards the timeout is examined too rarely and elements wait longer than Timeout*(1+1/divider)")
+					}
+				}
+			}
+		}
+	}
 	// (b) ctor stores interruptInterval = result#0 of the calc function applied to (Timeout, TimeoutInaccuracy of normalised opts)
 	ctor := jr.d.Ctors[0]
 	var calcCall *ssa.Call
